@@ -459,8 +459,24 @@ func runConcPair(tw *traceWriter, pair []string, rep int) {
 		a := (&regService{root: "/a", routes: []string{"", "/x"}}).build()
 		b := (&regService{root: "/b", routes: []string{"", "/x"}}).build()
 		c.Add(a).Add(b)
+		c.Filter(c.OPTIONSFilter)
+		// an administrative endpoint: its handler changes the container it is served by
+		adm := new(restful.WebService).Path("/adm")
+		adm.Route(adm.GET("").To(func(req *restful.Request, resp *restful.Response) {
+			nws := (&regService{root: "/byhandler", routes: []string{""}}).build()
+			c.Add(nws)
+			c.Remove(nws)
+			resp.Write([]byte("changed"))
+		}))
+		c.Add(adm)
 		do := func(kind string) {
 			switch kind {
+			case "handlerChanges":
+				regProbe(c, "S", "/adm")
+			case "optionsCurly":
+				if hr, err := buildRequest("OPTIONS", "/b/x", nil, nil, false); err == nil {
+					c.Dispatch(httptest.NewRecorder(), hr)
+				}
 			case "serveCurly":
 				regProbe(c, "S", "/b/x")
 			case "dispatchCurly":
@@ -488,7 +504,16 @@ func runConcPair(tw *traceWriter, pair []string, rep int) {
 			}(kind)
 		}
 		close(start)
-		wg.Wait()
+		fin := make(chan bool)
+		go func() { wg.Wait(); close(fin) }()
+		select {
+		case <-fin:
+		case <-time.After(20 * time.Second):
+			// two operations that block each other for good: a deadlock (the goroutines are lost)
+			tw.emit(map[string]interface{}{"e": "cstuck", "round": -1, "pair": pair})
+			stuckOnce = true
+			return
+		}
 	}
 	tw.emit(map[string]interface{}{"e": "cpair", "pair": pair, "reps": rep})
 }
@@ -501,8 +526,14 @@ func runConc(planPath, outPath string, seed int64) {
 	restful.EnableTracing(false)
 	tw := newTraceWriter(outPath)
 	defer tw.close()
-	for _, pair := range p.Pairs {
-		runConcPair(tw, pair, 30)
+	// the conflicting pairs TLC found, and two more kinds of change "while requests are served": a handler that
+	// changes its own container, and the OPTIONS filter (which walks the registry again) against Add / Remove
+	pairs := append(append([][]string{}, p.Pairs...), []string{"handlerChanges", "serveCurly"}, []string{"handlerChanges", "handlerChanges"},
+		[]string{"optionsCurly", "add"}, []string{"optionsCurly", "remove"})
+	for _, pair := range pairs {
+		if !stuckOnce {
+			runConcPair(tw, pair, 30)
+		}
 	}
 	if p.Servers == 0 {
 		p.Servers = 4
